@@ -24,6 +24,7 @@ import gc, itertools, json, operator, resource, signal, sys, warnings
 import common
 from common import err_kind
 from props import c03_flavours as FL
+from props import c03_calls as CL
 
 ID = "C03"
 RULE = ("random histories (length 3..14 quick, ..40 thorough) over a pool of finite / periodic Streams, "
@@ -164,7 +165,7 @@ class Runner(object):
         from audiolazy import Stream, StreamTeeHub, thub
         from audiolazy import lazy_itertools as lit
         self.Stream, self.Hub, self.thub, self.lit = Stream, StreamTeeHub, thub, lit
-        self.hist = case.get("entry") == "hist"
+        self.hist = case.get("entry") in ("hist", "calls")
         self.tagged = bool(case.get("tagged"))
         self.cap = int(case.get("cap", CAP))
         self.pool, self.objs, self.want, self.given = [], [], [], []
@@ -353,6 +354,88 @@ class Runner(object):
             return self.container(getattr(obj, o)(n, constructor=tuple), tuple)
         raise ValueError(ctor)
 
+    # --- calls as the caller writes them (entry `calls`) ------------------------------------
+    def carg(self, a):
+        k = a["k"]
+        if k == "lst":
+            return FL.iterable_of(self.literal(a["xs"]), a.get("as"), self.Stream)
+        if k == "scalar":
+            return self.item_in(a["v"])
+        if k == "endless":
+            return FL.endless_of([self.item_in(x) for x in a["xs"]], a.get("as"))
+        j = a["j"]
+        if j >= len(self.pool) or self.pool[j] is None:
+            raise LookupError("noobj")
+        return self.pool[j]
+
+    def cargs(self, args):
+        return [self.carg(a) for a in args]
+
+    def moved_args(self, args):
+        for a in args:
+            if a["k"] == "obj":
+                o = self.pool[a["j"]]
+                if o is not None and not isinstance(o, self.Hub):
+                    self.pool[a["j"]] = None
+
+    def _call(self, op, obj):
+        pool, Hub = self.pool, self.Hub
+        o = op["op"]
+        if o in ("take", "peek"):
+            a = op["a"]
+            pos, kw = CL.poskw(a)
+            ctor = op.get("ctor")
+            if ctor in ("tuple", "cap", "listkw"):
+                kw["constructor"] = {"tuple": tuple, "cap": self.capped, "listkw": list}[ctor]
+            r = getattr(obj, o)(*pos, **kw)
+            if a["t"] in ("omitted", "none"):
+                return {"x": self.item_out(r)}
+            return self.container(r, tuple if ctor == "tuple" else list)
+        if o == "new":
+            try:
+                args = self.cargs(op["args"])
+            except LookupError:
+                return {"err": "noobj"}
+            s = self.Stream(*args)
+            self.moved_args(op["args"])
+            pool.append(s)
+            return {"new": [len(pool) - 1]}
+        d = op["data"]
+        try:
+            data = self.carg(d)
+        except LookupError:
+            return {"err": "noobj"}
+        if o == "thub":
+            n = CL.nspell_py(op["n"])
+            if d["k"] == "scalar":
+                r = self.thub(data, n)
+                return {"const": d["v"]} if r is data else {"err": "not-the-object"}
+            ishub = isinstance(data, Hub)
+            before = _uses(data) if ishub else 0
+            try:
+                r = self.thub(data, n)
+            except Exception:
+                if ishub and 0 <= _uses(data) < before:
+                    pool.append(None)              # the use the failing constructor took is lost
+                raise
+            self.moved_args([d])
+            pool.append(r)
+            return {"new": [len(pool) - 1]}
+        if o == "tee":
+            rs = self.lit.tee(data, CL.nspell_py(op["n"])) if op.get("n") else self.lit.tee(data)
+            if d["k"] == "scalar":
+                if not isinstance(rs, tuple) or any(r is not data for r in rs):
+                    return {"err": "not-the-object"}
+                return self.container(rs, tuple)
+            if len(rs) and not isinstance(data, Hub):
+                pool[d["j"]] = None
+            out = []
+            for r in rs:
+                pool.append(r)
+                out.append(len(pool) - 1)
+            return {"new": out}
+        raise ValueError("unknown call " + o)
+
     def _drain(self, obj, op):
         via = op.get("via", "cap")
         if via == "cap":
@@ -388,6 +471,8 @@ class Runner(object):
                 return {"err": "noobj"}
             obj = pool[i]
         ishub = isinstance(obj, Hub)
+        if op.get("call") and o in ("take", "peek", "new", "thub", "tee"):
+            return self._call(op, obj)
         if o == "new":
             try:
                 args = self.build(op["src"])
@@ -410,12 +495,18 @@ class Runner(object):
             before = _uses(obj) if ishub else 0
             src = op.get("src")
             try:
-                if o == "skip" or o == "limit":
+                if (o == "skip" or o == "limit") and op.get("call"):
+                    pos, kw = CL.poskw(op["a"])
+                    r = getattr(obj, o)(*pos, **kw)
+                elif o == "skip" or o == "limit":
                     r = getattr(obj, o)(cnt_py(op["n"]))
                 elif o == "map":
                     r = obj.map(self.fn(MAPS, op, "f"))
                 elif o == "filter":
                     r = obj.filter(self.fn(PREDS, op, "p", pred=True))
+                elif op.get("call"):
+                    r = obj.append(*self.cargs(op["args"]))        # (only live objects are generated as arguments)
+                    self.moved_args(op["args"])
                 else:
                     try:
                         args = self.build(src)
@@ -578,6 +669,8 @@ def take_count(n):
 
 
 def round_count(n):
+    if n is None:
+        return None
     if isinstance(n, float) and (n != n or n in (INF, -INF)):
         return None
     return max(int(round(n)), 0)
@@ -683,6 +776,15 @@ class Sim:
                            xs[:-1] if k == "poplast" else xs + list(op["m"]["xs"]) if k == "extend" else
                            [op["m"]["v"]] * len(xs))
             return note
+        if op.get("call"):
+            kind, x = CL.plain_of(op)
+            if kind == "hop":
+                note = self._apply(x)
+                note["call"] = "hop"
+                return note
+            if x is not None:
+                self._made(x, "tee", mutable=False)
+            return {"call": "ret"}
         src = op.get("src")
         if "i" in op and src and src["k"] == "ref" and src["j"] >= len(self.lists):
             return {"nolist": True}
@@ -732,7 +834,7 @@ class Sim:
                 n = round_count(cnt_py(op["n"]))
                 if n is None:
                     return note          # (for a hub the placeholder is already appended)
-                un = pre + per * n
+                un = pre + (per * n if per else [])
                 if not per and n > len(pre):
                     flags.add(o + "-past-end")
                 if o == "skip":
@@ -1026,6 +1128,61 @@ def _hist(rng, length, wild, tagged, tees=None, **extra):
     return case
 
 
+def _calls(rng, length, wild, tagged):
+    """a `hist` history whose operations are written as calls: every operation respelled (count as
+    int / bool / float / Fraction / -0.0, positional / keyword / omitted; the argument list of
+    Stream(...) / append(...) written out, sources built on itertools objects; thub / tee n), and
+    refused / failing calls in between; the history goes on afterwards and every live object is
+    drained at the end"""
+    sim, ops = _new_sim(rng, tagged), []
+
+    def vals(n):
+        return _vals(rng, n, sim)
+    for _ in range(length):
+        if rng.random() < 0.22:
+            op = CL.odd_call(rng, sim, vals)
+        else:
+            op = _gen_hop(rng, sim, wild)
+            if op["op"] not in ("lit", "mut") and rng.random() < 0.8:
+                op = CL.respell(rng, op, FL.SRC_FLAVOURS) or op
+        ops.append(op)
+        sim.apply(op)
+    _finish(sim, ops, rng)
+    case = {"entry": "calls", "ops": ops}
+    if tagged:
+        case["tagged"] = True
+    return case
+
+
+def _tie_cases():
+    """every count exactly on a tie k + 0.5 (k = -3..6, even and odd), -0.0, as float and as Fraction,
+    through take / peek / skip / limit, positional and keyword, on a finite and on a periodic Stream"""
+    from fractions import Fraction
+    for base in ({"k": "lst", "xs": list(range(1, 9)), "as": "list"}, {"k": "endless", "xs": [1, 2, 3], "as": "it.cycle"}):
+        for k in range(-3, 7):
+            for t in ("flt", "frac"):
+                for kw in (False, True):
+                    a = {"t": t, "v": common.enc(Fraction(2 * k + 1, 2))}
+                    if kw:
+                        a["kw"] = True
+                    ops = [{"op": "new", "call": 1, "args": [base]}]
+                    for m in ("peek", "take", "skip", "limit"):
+                        ops.append({"op": m, "call": 1, "i": 0, "a": a, "ctor": "list"} if m in ("peek", "take")
+                                   else {"op": m, "call": 1, "i": 0, "a": a})
+                        ops.append({"op": "peek", "i": 0, "n": cnt_int(6), "ctor": "list"})
+                    ops.append({"op": "take", "i": 0, "n": cnt_int(9), "ctor": "list"})
+                    yield {"entry": "calls", "ops": ops}
+        for a in ({"t": "flt", "v": 0, "negzero": True}, {"t": "flt", "v": 0}, {"t": "frac", "v": 0}, {"t": "bool", "v": 0},
+                  {"t": "bool", "v": 1}):
+            ops = [{"op": "new", "call": 1, "args": [base]}]
+            for m in ("peek", "take", "skip", "limit"):
+                ops.append({"op": m, "call": 1, "i": 0, "a": a, "ctor": "list"} if m in ("peek", "take")
+                           else {"op": m, "call": 1, "i": 0, "a": a})
+                ops.append({"op": "peek", "i": 0, "n": cnt_int(4), "ctor": "list"})
+            ops.append({"op": "take", "i": 0, "n": cnt_int(9), "ctor": "list"})
+            yield {"entry": "calls", "ops": ops}
+
+
 def _exhaustive(depth):
     """all op sequences of the given depth over a small alphabet on Stream([1,2,3]) + one copy"""
     alpha = [
@@ -1222,11 +1379,16 @@ def generate(rng, tier, scale=1):
     cases = []
     if tier == "quick":
         nrand, maxlen, depth, nhist, nlong = 4000 * scale, 14, 3, 4500 * scale, 10 * scale
+        ncalls = 3000 * scale
     else:
         nrand, maxlen, depth, nhist, nlong = 40000 * scale, 40, 4, 40000 * scale, 40 * scale
+        ncalls = 30000 * scale
     if scale == 1:
         cases.extend(_exhaustive(depth))
         cases.extend(_owner_cases())
+        cases.extend(_tie_cases())
+    for k in range(ncalls):
+        cases.append(_calls(rng, rng.randint(3, maxlen), (k % 5) >= 3, tagged=(k % 4 == 3)))
     for k in range(nrand):
         wild = (k % 5) >= 3
         cases.append(_history(rng, rng.randint(3, maxlen), wild))
@@ -1266,7 +1428,7 @@ def _lent_cut(case, model):
     stream before (the real code reads a list argument lazily; the model took its contents at the
     call) — computed from the model's own observations, so that it also holds for every candidate
     of the shrinker"""
-    if case.get("entry") != "hist":
+    if case.get("entry") not in ("hist", "calls"):
         return None
     nlists, lent = 0, set()
     for k, op in enumerate(case["ops"]):
@@ -1306,7 +1468,7 @@ def compare(case, io, drv):
             k, x, y = d
             op = case["ops"][k] if k < len(case["ops"]) else None
             out.append((kind, "step %d %s: impl=%s %s=%s" % (k, op, _abbr(x), kind, _abbr(y))))
-        elif cut is None and case.get("entry") == "hist" and io.get("lists") != drv[kind + "_lists"]:
+        elif cut is None and case.get("entry") in ("hist", "calls") and io.get("lists") != drv[kind + "_lists"]:
             out.append((kind, "the caller's containers at the end: impl=%s %s=%s" % (
                 _abbr(io.get("lists")), kind, _abbr(drv[kind + "_lists"]))))
     return out
@@ -1341,7 +1503,7 @@ def classify(case, io, drv):
         steps, drv = steps[:cut], dict(drv, model=drv["model"][:cut], spec=drv["spec"][:cut])
     d = _first_diff(steps, drv["spec"]) or _first_diff(steps, drv["model"])
     if d is None:
-        if cut is None and case.get("entry") == "hist" and io.get("lists") != drv.get("spec_lists"):
+        if cut is None and case.get("entry") in ("hist", "calls") and io.get("lists") != drv.get("spec_lists"):
             return "final-contents-of-the-callers-containers"
         return "no-difference"
     k, x, y = d
@@ -1371,7 +1533,7 @@ def _bucket(n):
 def tally(eng, case, io):
     ops = case["ops"]
     steps = io.get("steps", [])
-    hist = case.get("entry") == "hist"
+    hist = case.get("entry") in ("hist", "calls")
     eng.count("entry", case.get("entry") + (":tagged" if case.get("tagged") else "") +
               (":long-" + case["long"] if case.get("long") else ""))
     eng.count("history_len", min(len(ops) // 5 * 5, 60) if len(ops) < 60 else _bucket(len(ops)))
@@ -1382,7 +1544,9 @@ def tally(eng, case, io):
         ob = steps[k] if k < len(steps) else None
         kind = note.get("kind", "-")
         eng.count("op", op["op"] + ("@hub" if kind == "h" else "@raw-subclass" if kind == "r" else ""))
-        if "n" in op and isinstance(op["n"], dict):
+        if op.get("call"):
+            CL.tally(eng, op, ob)
+        if "n" in op and isinstance(op["n"], dict) and not op.get("call"):
             t = op["n"]["t"]
             if t == "int":
                 v = op["n"]["v"]
@@ -1454,6 +1618,16 @@ def _drop(ops, notes, ks):
                         return None
                     if src["j"] >= p1:
                         op = dict(op, src=dict(src, j=src["j"] - (p1 - p0)))
+                cargs = (op.get("args") or []) + ([op["data"]] if "data" in op else [])
+                if any(a["k"] == "obj" and p0 <= a["j"] < p1 for a in cargs):
+                    return None
+                if any(a["k"] == "obj" and a["j"] >= p1 for a in cargs):
+                    def _ren(a):
+                        return dict(a, j=a["j"] - (p1 - p0)) if (a["k"] == "obj" and a["j"] >= p1) else a
+                    if "args" in op:
+                        op = dict(op, args=[_ren(a) for a in op["args"]])
+                    if "data" in op:
+                        op = dict(op, data=_ren(op["data"]))
             if l1 > l0:
                 if op["op"] == "mut":
                     if l0 <= op["j"] < l1:
@@ -1557,7 +1731,7 @@ def _shrink(case):
                 yield c
         size //= 2
     # 3. flavours
-    if case.get("tagged"):
+    if case.get("tagged") and case.get("entry") != "calls":
         c = _untag(case)
         if emit(c):
             yield c
@@ -1625,7 +1799,7 @@ def _shrink(case):
 def neighbours(case):
     ops = case["ops"]
     for k, op in enumerate(ops):
-        c = op.get("n")
+        c = op.get("n") if not op.get("call") else None
         if isinstance(c, dict) and c["t"] == "int":
             for d in (-1, 1):
                 yield dict(case, ops=ops[:k] + [dict(op, n=cnt_int(c["v"] + d))] + ops[k + 1:])
